@@ -52,6 +52,9 @@ type symbol struct {
 	HasPQ   bool   `json:"-"`    // extensions carry a non-null persistedQuery
 	WF      bool   `json:"-"`    // persistedQuery is an object with a string sha256Hash and version 1
 	Hash    string `json:"-"`    // the claimed hash when persistedQuery is an object with a string sha256Hash
+	// RawGetQuery: over GET the `query` pair is sent with exactly these bytes (an incompletely
+	// escaped text: stray '%', raw ';'); the extensions pair is appended properly escaped
+	RawGetQuery string `json:"raw_get_query,omitempty"`
 }
 
 func (s *symbol) trivial() bool { return s.Kind == "text-only" || s.Kind == "malformed" }
@@ -77,6 +80,19 @@ func symMismatch(i, j int) *symbol {
 func symHashOnly(i int) *symbol {
 	h := sha(texts[i])
 	return &symbol{Name: fmt.Sprintf("t%d:hash", i), Ext: pq("1", h), TextIdx: i, Kind: "hash-only", HasPQ: true, WF: true, Hash: h}
+}
+
+// symBlank: a text made of white space only, sent with the hash of ANOTHER text: it does not hash to
+// that value, so it is a mismatch like any other (rejected, nothing executed, nothing registered).
+func symBlank(j int, blank, name string) *symbol {
+	h := sha(texts[j])
+	return &symbol{Name: fmt.Sprintf("blank(%s)+hash(t%d)", name, j), Text: blank, Ext: pq("1", h), TextIdx: j, Kind: "mismatch", HasPQ: true, WF: true, Hash: h}
+}
+
+// symRawGet: a text whose GET encoding is not a well-formed query-string pair, with another text's hash.
+func symRawGet(j int, text, raw, name string) *symbol {
+	h := sha(texts[j])
+	return &symbol{Name: fmt.Sprintf("rawget(%s)+hash(t%d)", name, j), Text: text, Ext: pq("1", h), TextIdx: j, Kind: "mismatch", HasPQ: true, WF: true, Hash: h, RawGetQuery: raw}
 }
 
 func flipTail(h string) string {
@@ -158,6 +174,8 @@ func alphabetBig() []*symbol {
 			malformed(fmt.Sprintf("v0:hash(t%d)", i), "", pq("0", h), i, h),
 			malformed(fmt.Sprintf("bad:list+t%d", i), texts[i], `{"persistedQuery":[1,"`+h+`"]}`, i, ""),
 			malformed(fmt.Sprintf("bad:version-float,hash(t%d)", i), "", `{"persistedQuery":{"version":1.5,"sha256Hash":"`+h+`"}}`, i, h),
+			symBlank(i, " ", "space"), symBlank(i, "\n\t ", "newline-tab"),
+			symRawGet(i, "{ q1 %zz }", "query=%7B+q1+%zz+%7D", "stray-percent"), symRawGet(i, "{ q1; q2 }", "query={+q1;+q2+}", "raw-semicolon"),
 		)
 	}
 	return a
